@@ -121,7 +121,7 @@ claim('C07',
       'the numpy branch\'s own closure kernel over (data, x grid, y grid) in the kernel\'s parameter order with NaN '
       'boundary; each halo pad is int(max_distance / cellsize + c), c >= 0 (or a ceil), built from the cell size of '
       'its OWN axis (units-of-measure check through the (x, y) unpacking of the resolution helper) and placed in '
-      'that axis\' slot of depth; the documented single-block fallback exists, compares max_distance with the '
+      'that axis\' slot of depth (a pad term of another form - cell sizes derived from coordinate extents, say - is evaluated on non-square model rasters with different cell sizes on the two axes and must give at least floor(max_distance / cell size of its axis) cells); the documented single-block fallback exists, compares max_distance with the '
       'corner-to-corner distance under the chosen metric, rechunks the data and both coordinate grids to the full '
       'shape; the grids are the raster\'s own coordinates tiled/repeated in row-major layout. Decided for every '
       'chunking, max_distance and cell size at once. Not decided: the dask limit when the halo exceeds the raster '
@@ -287,7 +287,7 @@ claim('C05',
       'widening to float, target height = max(target_elev, 0); T11 sweep skeleton on the interpreted sweep: node fields '
       'equal the event helpers applied to the matching event position / elevation (expectations built by interpreting '
       'the helpers symbolically), the 2*pi fix-ups, and insert / delete / query dispatched by event type with the '
-      'cell\'s distance key, bearing and centre gradient; T9 the status tree\'s rotations, insert and delete write LEFT/RIGHT and PARENT links as matching pairs and the two fix-up routines are closed under the LEFT<->RIGHT mirror; T12 the query\'s early returns are taken only under running max > queried gradient (strict). NOT decided (declined): that the red-black tree with augmented maxima returns the true '
+      'cell\'s distance key, bearing and centre gradient; T9 the status tree\'s rotations, insert and delete write LEFT/RIGHT and PARENT links as matching pairs and the two fix-up routines are closed under the LEFT<->RIGHT mirror; T12 the query\'s early returns are taken only under running max > queried gradient (strict); T14 the height stored for an ENTER / EXIT corner, as the term the interpreter gives for it, evaluated on model rasters wider than tall, taller than wide and square for every cell and four observer cells: mean of the four cells meeting at the corner when the diagonal neighbour is inside the raster (row < rows, column < columns), the cell\'s own height otherwise. NOT decided (declined): that the red-black tree with augmented maxima returns the true '
       'maximum gradient after every insert/delete order, hence that the sweep marks exactly the visible cells.',
       'Trusted: math.atan/atan2 for table values. The declined core needs balanced-tree invariants over unbounded '
       'insert/delete histories - no sound static argument in reach.',
